@@ -21,11 +21,18 @@ import (
 	"sync"
 
 	_ "perkeep.org/pkg/server"
+	_ "perkeep.org/pkg/sorted/kvfile"
+	_ "perkeep.org/pkg/sorted/leveldb"
+	_ "perkeep.org/pkg/sorted/sqlite"
 
 	"verif.local/harness/ev"
 )
 
 func main() {
+	if os.Getenv("VERIF_CHILD") == "c19wiring" {
+		wiringChildMain()
+		return
+	}
 	ev.Main("C19", "fault_enumeration",
 		"scenario = (destination family memory|index, upload history, per-incarnation fault plan: j-th call of one operation per store gets error / error-after-effect / misreport / corrupt / short / wrong-size, fail-stop of all wrappers at lower-layer call k followed by a new handler over the same stores and queue). "+
 			"Restart points are exhaustive over k for each short history (fault-free and under a destination outage); single-fault kinds are enumerated per destination family and occurrence set; multi-fault and double-restart scenarios are seeded. "+
@@ -40,9 +47,12 @@ func run(r *ev.Run) {
 	r.Assume("a destination 'acknowledged' a blob when its ReceiveBlob returned nil with the blob's true size and the durable destination below the wrappers accepted it during that call")
 	r.Assume("restart = fail-stop of the incarnation's source, destination and queue wrappers (inject.Freeze), then a new sync handler over the same durable stores and queue KV with fresh wrappers; goroutines of the old incarnation keep running but every lower-layer call they make fails without effect")
 	r.Assume("progress is driven by logical events only: client retries, one filler upload, and a bounded number (3 + planned fault occurrences) of IdleWait returns; IdleWait's 5 s loop interval is waited for, never judged; a 90 s watchdog on IdleWait only yields inconclusive")
+	r.Assume("bounded progress of the copy loop: while a blob is durably queued, absent from the destination, and the destination answers a stat, the loop must not be in a closed wait cycle = at 3 successive polls the handler has issued the same lower-layer calls (none open) and a goroutine dump shows its loop goroutine parked in a plain channel operation inside runSync and every live goroutine that goroutine ever created parked in a plain channel operation with a perkeep frame on top, or in the hand-over select of one of the three enumerator functions, whose cases are the send on runSync's channel and runSync's interrupt channel (then 5 polls, spanning more than the loop's 5 s timer); runSync's channels are local, so nobody else can complete these operations; anything else that delays IdleWait is inconclusive")
+	r.Assume("start-up recovery (validateOnStart, fullSyncOnStart): blobs that are in the source when the handler starts, without a queue row, are expected at the destination too (the status page documents the validation as ensuring 'that the destination has everything the source does, or is at least enqueued to sync'); validation is waited for through the handler's status page (shards processed = total); blockingFullSyncOnStart and hourlyCompareBytes are not exercised")
+	r.Assume("family 'server': handlers built by serverinit.Load(high-level config)+InstallHandlers in a child process and driven through their HTTP handlers (PUT at the discovered blob root = cond -> replica|/bs/); 'nothing left to copy' is read from the status handler (blobsToCopy of every sync handler = 0) after all uploads were acknowledged; delivered = the index prefix stats the blob with its true size")
+	r.Assume("schedule control by gates and a 300 ms settle (destination held until the copy workers are all inside it) only shapes the interleaving; it is never judged")
 	r.Assume("a queue row whose blob is at the destination but which is still present after the bounded progress (the handler logs and ignores a failed queue.Delete) is tolerated in the running incarnation, counted, and must be drained by one fault-free restart")
 	r.Assume("index destination: delivered = have:<ref> is \"<size>|indexed\" and meta:<ref> starts with \"<size>|\"; histories for the index family upload every dependency before its dependents, sequentially")
-	r.Assume("validateOnStart / fullSyncOnStart (and with them the log.Fatalf paths of the validation enumerator) are not exercised")
 
 	all := generate(r.Rand("scenarios"), r.Thorough())
 	var scs []*scenario
@@ -54,6 +64,24 @@ func run(r *ev.Run) {
 	par := r.Pick(32, 48)
 	r.Extra("scenarios_planned", len(scs))
 	r.Extra("parallelism", par)
+
+	// family "server": one child process per configuration, alongside the scenarios
+	var wcfgs []string
+	for _, c := range wiringConfigs(r.Thorough()) {
+		if r.Only("W/server/" + c) {
+			wcfgs = append(wcfgs, c)
+		}
+	}
+	wres := make([]*wiringResult, len(wcfgs))
+	wincon := make([]string, len(wcfgs))
+	var wwg sync.WaitGroup
+	for i, c := range wcfgs {
+		wwg.Add(1)
+		go func(i int, c string) {
+			defer wwg.Done()
+			wres[i], wincon[i] = runWiring(r, c)
+		}(i, c)
+	}
 
 	outs := make([]*outcome, len(scs))
 	var wg sync.WaitGroup
@@ -91,6 +119,16 @@ func run(r *ev.Run) {
 		r.Count("startups_refused", o.Refused)
 		r.Count("stale_rows_tolerated", o.StaleRows)
 		r.Count("stale_rows_without_failed_delete", o.StaleUnexplained)
+		r.Count("pre_populated_source_blobs", o.PrePopulated)
+		r.Count("queue_file_reopens", o.QueueReopens)
+		r.Count("probe_uploads_while_not_idle", o.ProbeUploads)
+		r.Count("validation_shards_processed", o.ValidationShards)
+		if o.MaxPending > int(r.Counter("max_rows_pending_at_a_start")) {
+			r.Count("max_rows_pending_at_a_start", o.MaxPending-int(r.Counter("max_rows_pending_at_a_start")))
+		}
+		if o.Stall != nil {
+			r.Count("closed_wait_cycles_established", 1)
+		}
 		iterHist[fmt.Sprint(o.IdleWaitsMax)]++
 		if o.StaleUnexplained > 0 {
 			r.Note("stale_rows_without_failed_delete_in", sc.Family+"/"+sc.Kind+"@"+sc.Dest)
@@ -104,7 +142,28 @@ func run(r *ev.Run) {
 			continue
 		}
 		r.Note("dest", sc.Dest)
-		delivered := len(o.Faults) > 0 || len(o.RestartAt) > 0 || len(o.Schedules) > 0
+		r.Note("family_judged", sc.Family)
+		if sc.Queue != "" && o.QueueReopens > 0 {
+			r.Note("queue_backend_reopened", sc.Queue)
+		}
+		for _, is := range sc.Incs {
+			if is.Pool > 0 {
+				r.Note("copier_pool_size", fmt.Sprint(is.Pool))
+			}
+		}
+		if sc.Family == "size-boundary" {
+			for _, b := range sc.blobs {
+				r.Note("blob_size", fmt.Sprint(len(b.Data)))
+			}
+		}
+		if sc.Family == "backlog" && o.MaxPending > 1000 {
+			r.Note("backlog", "more-than-one-batch-pending-at-start")
+		}
+		if sc.Family == "startup-recovery" {
+			r.Note("startup_recovery", sc.Kind)
+		}
+		delivered := len(o.Faults) > 0 || len(o.RestartAt) > 0 || len(o.Schedules) > 0 ||
+			sc.Family == "pool" || sc.Family == "size-boundary" || sc.Family == "startup-recovery"
 		for _, f := range uniq(o.Faults) {
 			r.Note("fault_kinds", f)
 			r.Note("fault_kinds_by_dest", f+"@"+sc.Dest)
@@ -141,11 +200,59 @@ func run(r *ev.Run) {
 	}
 	r.Extra("idle_waits_per_final_drive_histogram", iterHist)
 
+	wwg.Wait()
+	for i, c := range wcfgs {
+		id := "W/server/" + c
+		if wincon[i] != "" {
+			r.Inconclusive("scenario " + id + ": " + wincon[i])
+			continue
+		}
+		wr := wres[i]
+		if wr.Inconclusive != "" {
+			r.Inconclusive("scenario " + id + ": " + wr.Inconclusive)
+			continue
+		}
+		r.Count("scenarios", 1)
+		r.Count("server_blobs_uploaded_at_blob_root", wr.Uploaded)
+		r.Count("server_blobs_verified_at_index", wr.AtIndex)
+		r.Count("server_status_polls", wr.StatusPolls)
+		r.Eval(2 * wr.Uploaded)
+		if wr.Uploaded > 0 && wr.Schema > 0 && wr.NonSchema > 0 {
+			r.Note("family_judged", "server")
+			r.Note("server_config", c)
+			r.Distinct("server|" + c)
+		}
+		if i == 0 {
+			r.Sample(map[string]any{"scenario": id, "outcome": wr})
+		}
+		seen := map[string]bool{}
+		for _, f := range wr.Findings {
+			if seen[f.Sig] {
+				continue
+			}
+			seen[f.Sig] = true
+			r.Violation(f.Sig, "scenario "+id+": "+f.What, map[string]any{"case_id": id, "result": wr})
+		}
+	}
+
 	r.Require("dest", "memory", "index")
 	r.Require("fault_kinds", kindNames()...)
 	r.Require("restart_at", "queue.Set", "dst.ReceiveBlob", "queue.Delete", "src.Fetch")
 	r.Require("startup", "refused-on-unreadable-queue")
-	r.Require("schedules", "reupload-during-dst.ReceiveBlob", "reupload-during-queue.Delete")
+	r.Require("schedules", "reupload-during-dst.ReceiveBlob", "reupload-during-queue.Delete", "reupload-during-src.Fetch",
+		"destination-held-until-workers-busy", "destination-silent-until-crash")
+	r.Require("family_judged", "fault", "restart", "restart-outage", "double-restart", "multi", "designed", "race",
+		"pool", "size-boundary", "backlog", "file-queue", "startup-recovery", "server")
+	r.Require("server_config", wiringConfigs(r.Thorough())...)
+	r.Require("copier_pool_size", "1", "2")
+	r.Require("blob_size", "0", "1", fmt.Sprint(maxBlobSize-1), fmt.Sprint(maxBlobSize))
+	r.Require("backlog", "more-than-one-batch-pending-at-start")
+	r.Require("queue_backend_reopened", "leveldb")
+	r.Require("startup_recovery", "validate-on-start", "full-sync-on-start")
+	if r.Thorough() {
+		r.Require("queue_backend_reopened", "kv", "sqlite")
+		r.Require("copier_pool_size", "3", "4", "5", "8")
+	}
 	if r.Thorough() {
 		for _, d := range dests {
 			for _, c := range []string{"queue.Set", "dst.ReceiveBlob", "queue.Delete", "src.Fetch"} {
